@@ -240,5 +240,8 @@ LEVEL_TEXT = ("Lean theorems: hex / base32 / base64url encode-decode round trips
               "CONSTANT) satisfies its contract for all arguments and rejects wrong arity. Tied to /repo per function by "
               "correspondence, plus round trips and codec texts on the implementation's own gob bytes.")
 LEVEL_NOTE = ("CONCAT prints NULL as `<nil>` (pinned by TestConcatFunc): known finding KF-concat-null, model switch concatNilText. gob, "
-              "crypto, Unicode case tables and ParseFloat are contracts (hypotheses / compared).")
+              "crypto, Unicode case tables and ParseFloat are contracts (hypotheses / compared). The string<->double round trip of CHANGETYPE goes "
+              "through Go's float printing and parsing, which the model does not contain (its CHANGETYPE of a text to double is "
+              "out-of-model): that clause is EXPLORED on the implementation (values on both sides of the %v exponent thresholds, exponent-"
+              "form texts), not proved.")
 TECHNIQUE = "Lean 4 proof (codec arithmetic by omega; list laws by induction) + per-function differential correspondence"
